@@ -107,7 +107,7 @@ TOKENIZER = [
       Closure(1, "|| -> (r: usize) ensures r == self.input.spec_bytes().len() as usize"),
     ],
   ),
-  F('is_digit_char',
+  F('is_digit_char', props=['C01', 'C05', 'C09', 'C10'],
     spec=r'''    ensures r == (('0' <= ch && ch <= '9') || ch == '.' || ch == '-' || ch == 'e' || ch == 'E' || ch == '+'),''',
     ops=[],
   ),
